@@ -80,6 +80,62 @@ pub struct C11Plan {
     /// The terminal -> client stream ends after this many bytes (connection lost mid-upload).
     #[serde(default)]
     pub cut: Option<(u32, crate::conn::CloseKind)>,
+    /// File-system faults (through the `zvt_verif` hook of crate zvt): the `nth` open / read_at of
+    /// the file with this id fails or comes back short.
+    #[serde(default)]
+    pub fs_faults: Vec<FsFault>,
+}
+
+#[derive(Clone, Copy, Debug, PartialEq, Serialize, Deserialize)]
+pub enum FsOpKind {
+    Open,
+    Read,
+}
+
+#[derive(Clone, Copy, Debug, PartialEq, Serialize, Deserialize)]
+pub enum FsKind {
+    /// 0 = EIO-like (Other), 1 = NotFound, 2 = PermissionDenied, 3 = Interrupted
+    Fail(u8),
+    /// read_at returns at most this many bytes (>= 1) although more are available
+    Short(u32),
+}
+
+#[derive(Clone, Copy, Debug, PartialEq, Serialize, Deserialize)]
+pub struct FsFault {
+    pub file: u8,
+    pub op: FsOpKind,
+    pub nth: u32,
+    pub kind: FsKind,
+}
+
+#[derive(Clone, Debug)]
+struct FsFired {
+    fault: FsFault,
+    /// read cursor of the connection when the fault fired (which request was being answered)
+    cursor: u64,
+    /// for Short: did it actually shorten the read (more bytes were available)?
+    bit: bool,
+}
+
+#[derive(Default)]
+struct FsState {
+    opens: BTreeMap<u8, u32>,
+    reads: BTreeMap<u8, u32>,
+    fired: Vec<FsFired>,
+}
+
+fn id_of_path(p: &std::path::Path) -> Option<u8> {
+    let s = p.to_string_lossy();
+    ID_TABLE.iter().find(|(rel, _)| s.ends_with(&format!("/payload/{rel}"))).map(|(_, id)| *id)
+}
+
+/// Where the first failing file operation hit.
+#[derive(Clone, Copy, Debug, PartialEq)]
+enum FsErrAt {
+    Manifest,
+    Request(usize),
+    /// cannot be attributed to a request boundary (the client's cursor was elsewhere)
+    Unknown,
 }
 
 fn content(seed: u64, id: u8, size: u32) -> Vec<u8> {
@@ -176,6 +232,60 @@ pub fn run_plan(plan: &C11Plan, want_trace: bool) -> RunOut {
     let mut pt = PacketTransport { source: conn };
     let max_items = replies.len() + 8;
     let total_answer_bytes: u64 = plan.requests.len() as u64 * (plan.block as u64 + 64);
+    let fs_state = Arc::new(Mutex::new(FsState::default()));
+    if !plan.fs_faults.is_empty() {
+        let (st, faults, hc, sizes, flog) = (
+            fs_state.clone(),
+            plan.fs_faults.clone(),
+            h.clone(),
+            truth.iter().map(|(k, v)| (*k, v.len() as u64)).collect::<BTreeMap<u8, u64>>(),
+            log.clone(),
+        );
+        zvt::verif_hook::install_fs(Box::new(move |op| {
+            use zvt::verif_hook::{FsDecision, FsOp};
+            let mut st = st.lock().unwrap();
+            let (id, kind, nth, avail) = match &op {
+                FsOp::Open { path } => {
+                    let Some(id) = id_of_path(path) else { return FsDecision::Real };
+                    let c = st.opens.entry(id).or_insert(0);
+                    *c += 1;
+                    (id, FsOpKind::Open, *c - 1, 0u64)
+                }
+                FsOp::ReadAt { path, offset, len } => {
+                    let Some(id) = id_of_path(path) else { return FsDecision::Real };
+                    let c = st.reads.entry(id).or_insert(0);
+                    *c += 1;
+                    let size = sizes.get(&id).copied().unwrap_or(0);
+                    (id, FsOpKind::Read, *c - 1, size.saturating_sub(*offset).min(*len as u64))
+                }
+            };
+            let Some(f) = faults.iter().find(|f| f.file == id && f.op == kind && f.nth == nth) else {
+                return FsDecision::Real;
+            };
+            let (dec, bit) = match (f.kind, kind) {
+                (FsKind::Fail(k), _) => (
+                    FsDecision::Fail(match k {
+                        1 => std::io::ErrorKind::NotFound,
+                        2 => std::io::ErrorKind::PermissionDenied,
+                        3 => std::io::ErrorKind::Interrupted,
+                        _ => std::io::ErrorKind::Other,
+                    }),
+                    true,
+                ),
+                (FsKind::Short(n), FsOpKind::Read) => (FsDecision::Short(n.max(1) as usize), (n.max(1) as u64) < avail),
+                (FsKind::Short(_), FsOpKind::Open) => (FsDecision::Real, false),
+            };
+            if bit {
+                flog.lock().unwrap().note(format!("fs fault {:?}", f));
+            }
+            st.fired.push(FsFired {
+                fault: *f,
+                cursor: hc.cursor(),
+                bit,
+            });
+            dec
+        }));
+    }
     let res = {
         let rec = rec.clone();
         let h2 = h.clone();
@@ -237,6 +347,7 @@ pub fn run_plan(plan: &C11Plan, want_trace: bool) -> RunOut {
             )
         })
     };
+    zvt::verif_hook::uninstall_fs();
     drop(scratch);
     let logg = log.lock().unwrap();
     // the announcement's entry order is HashMap order (per-process random):
@@ -293,299 +404,387 @@ pub fn run_plan(plan: &C11Plan, want_trace: bool) -> RunOut {
     }
     out.shape = sh.finish();
 
-    if announced.is_empty() {
-        out.stats.hit("probe.empty_directory");
-        // error without traffic
-        if !written.is_empty() {
-            out.fail("traffic_without_files", sig.clone(), "no recognised file present, yet bytes were sent");
-        }
-        let n_err = rec.items.iter().filter(|i| i.res.is_err()).count();
-        if rec.items.len() != 1 || n_err != 1 || !rec.ended {
-            out.fail(
-                "empty_directory",
-                sig.clone(),
-                format!("no recognised file present: expected exactly one error, got {} item(s), {} error(s)", rec.items.len(), n_err),
-            );
-        }
-        return out;
-    }
-    if outcome != "done" {
-        out.fail(
-            "no_progress",
-            format!("{sig}/{outcome}"),
-            format!("upload {outcome} after {polls} polls although the terminal delivered its whole script"),
-        );
-        return out;
-    }
-    let mut wbuf = written.clone();
-    let mut frames = vec![];
-    while let Some(f) = rc::take_frame(&mut wbuf) {
-        frames.push(f);
-    }
-    // (1) the announcement
-    let Some(cmd) = frames.first() else {
-        out.fail("command", sig.clone(), "no complete 08 14 frame was written");
-        return out;
-    };
-    match Pkt::decode(cmd) {
-        Ok(p) if p.cf == (0x08, 0x14) => {
-            if rc::bcd_val(&p.pos) != Some(plan.password as u64) || p.pos.len() != 3 {
-                out.fail("manifest_password", sig.clone(), format!("08 14 carries password {} instead of {}", crate::conn::hex(&p.pos), plan.password));
+    // File-system faults that fired. A failing open / read_at may either end the upload with one
+    // error (nothing is sent for that request) or be retried successfully; a short read is no
+    // excuse: the answer must still carry the whole block. Wrong data is never acceptable.
+    let fs_fired: Vec<FsFired> = fs_state.lock().unwrap().fired.clone();
+    // every failing operation, attributed to the request that was being answered
+    let mut fails: Vec<FsErrAt> = vec![];
+    for f in &fs_fired {
+        match f.fault.kind {
+            FsKind::Fail(k) => {
+                out.stats.hit(match (f.fault.op, k) {
+                    (FsOpKind::Open, _) => "fault.fs_open_error",
+                    (FsOpKind::Read, 3) => "fault.fs_read_interrupted",
+                    (FsOpKind::Read, _) => "fault.fs_read_error",
+                });
+                fails.push(if f.cursor == 0 {
+                    FsErrAt::Manifest
+                } else {
+                    let mut off = 3u64;
+                    let mut at = FsErrAt::Unknown;
+                    for (i, r) in replies.iter().enumerate().take(plan.requests.len()) {
+                        off += r.len() as u64;
+                        if off == f.cursor {
+                            at = FsErrAt::Request(i);
+                            break;
+                        }
+                    }
+                    at
+                });
             }
-            let mut got: Vec<(u8, u32)> = vec![];
-            let mut malformed = p.bmps.len() != 1;
-            for t in p.tlvs().unwrap_or_default() {
-                let ch = t.children();
-                let id = rc::find(ch, 0x1d).and_then(|x| x.prim_val()).filter(|v| v.len() == 1).map(|v| v[0]);
-                let size = rc::find(ch, 0x1f00)
-                    .and_then(|x| x.prim_val())
-                    .filter(|v| v.len() == 4)
-                    .map(|v| u32::from_be_bytes([v[0], v[1], v[2], v[3]]));
-                match (t.tag, id, size, ch.len()) {
-                    (0x2d, Some(id), Some(size), 2) => got.push((id, size)),
-                    _ => malformed = true,
+            FsKind::Short(_) => {
+                if f.bit {
+                    out.stats.hit("fault.fs_short_read");
                 }
             }
-            got.sort();
-            let want: Vec<(u8, u32)> = announced.iter().map(|(k, v)| (*k, *v)).collect();
-            if malformed || got != want {
+        }
+    }
+    let judge = |fs_err: Option<FsErrAt>, out: &mut RunOut| {
+
+        if announced.is_empty() {
+            out.stats.hit("probe.empty_directory");
+            // error without traffic
+            if !written.is_empty() {
+                out.fail("traffic_without_files", sig.clone(), "no recognised file present, yet bytes were sent");
+            }
+            let n_err = rec.items.iter().filter(|i| i.res.is_err()).count();
+            if rec.items.len() != 1 || n_err != 1 || !rec.ended {
                 out.fail(
-                    "manifest",
+                    "empty_directory",
                     sig.clone(),
-                    format!("announced file list {:02x?} (malformed entries: {malformed}) differs from the recognised files on disk {:02x?}", got, want),
+                    format!("no recognised file present: expected exactly one error, got {} item(s), {} error(s)", rec.items.len(), n_err),
                 );
             }
+            return;
         }
-        _ => out.fail("command", sig.clone(), format!("first frame is not a decodable 08 14: {}", crate::conn::hex(cmd))),
-    }
-    // (2)..(4) the script
-    let avail = plan.cut.map(|c| c.0 as u64).unwrap_or(u64::MAX);
-    let mut end_off = 3u64; // after the terminal's acknowledgement
-    let mut expect_items = 0usize;
-    let mut expect_answers: Vec<(Vec<u8>, u64)> = vec![]; // (kind marker or expected payload, end offset)
-    let mut error_expected = avail < 3;
-    let mut cut_hit = avail < 3;
-    if cut_hit {
-        out.stats.hit("fault.stream_cut");
-    }
-    for (i, r) in plan.requests.iter().enumerate() {
-        if error_expected {
-            break;
-        }
-        if end_off + replies[i].len() as u64 > avail {
-            // the connection ends inside (or before) this request: one error, nothing more is sent
-            error_expected = true;
-            cut_hit = true;
-            out.stats.hit("fault.stream_cut");
-            break;
-        }
-        end_off += replies[i].len() as u64;
-        let valid = match r {
-            Req::Data { id, .. } => announced.contains_key(id),
-            _ => false,
-        };
-        if !valid {
-            error_expected = true;
-            out.stats.hit(match r {
-                Req::Data { .. } => "fault.unknown_file_id",
-                Req::NoId { .. } => "fault.request_without_id",
-                Req::NoOffset { .. } => "fault.request_without_offset",
-                Req::NoContainer { .. } => "fault.request_without_container",
-                Req::NoTlv => "fault.request_without_tlv",
-            });
-            break;
-        }
-        if let Req::Data { id, offset } = r {
-            let file = &truth[id];
-            let a = (*offset as usize).min(file.len());
-            let b = (*offset as usize + plan.block as usize).min(file.len());
-            if a == b {
-                out.stats.hit("probe.offset_at_or_after_eof");
-            } else if b - a < plan.block as usize {
-                out.stats.hit("probe.short_last_block");
-            } else {
-                out.stats.hit("probe.full_block");
+        if fs_err == Some(FsErrAt::Manifest) {
+            // a file could not be opened while the list was built: one error, no traffic
+            if !written.is_empty() {
+                out.fail("traffic_after_fs_error", sig.clone(), "a payload file could not be opened for the file list, yet bytes were sent");
             }
-            let mut exp = vec![*id];
-            exp.extend(offset.to_be_bytes());
-            exp.extend_from_slice(&file[a..b]);
-            expect_answers.push((exp, end_off));
-            expect_items += 1;
-        }
-    }
-    let mut final_end = None;
-    if !error_expected {
-        if end_off + replies[plan.requests.len()].len() as u64 > avail {
-            error_expected = true;
-            cut_hit = true;
-            out.stats.hit("fault.stream_cut");
-        } else {
-            end_off += replies[plan.requests.len()].len() as u64;
-            expect_items += 1;
-            final_end = Some(end_off);
-        }
-    }
-    let read_limit = if cut_hit { avail.min(ex.stream().len() as u64) } else { end_off };
-    // answers written
-    let answers = &frames[1..];
-    let want_answers = expect_answers.len() + if error_expected { 0 } else { 1 };
-    if answers.len() != want_answers || !wbuf.is_empty() {
-        out.fail(
-            if answers.len() > want_answers { "extra_write" } else { "missing_answer" },
-            sig.clone(),
-            format!(
-                "client wrote {} answer frame(s) (+{} stray bytes), reference model: {}{}",
-                answers.len(),
-                wbuf.len(),
-                want_answers,
-                if error_expected { " (invalid request ends the upload, nothing may be sent for it)" } else { "" }
-            ),
-        );
-    }
-    let mut answer_ends: Vec<usize> = vec![];
-    let mut off = frames[0].len();
-    for a in answers {
-        off += a.len();
-        answer_ends.push(off);
-    }
-    for (i, (exp, _)) in expect_answers.iter().enumerate() {
-        let Some(a) = answers.get(i) else { break };
-        let (id, offset, payload) = (exp[0], &exp[1..5], &exp[5..]);
-        let ok = (|| -> Option<bool> {
-            let p = Pkt::decode(a).ok()?;
-            if p.cf != (0x80, 0x00) || !p.pos.is_empty() || p.bmps.len() != 1 {
-                return Some(false);
+            let n_err = rec.items.iter().filter(|i| i.res.is_err()).count();
+            if rec.items.len() != 1 || n_err != 1 || !rec.ended {
+                out.fail(
+                    "fs_error_not_reported",
+                    sig.clone(),
+                    format!("a payload file could not be opened for the file list: expected exactly one error, got {} item(s), {} error(s)", rec.items.len(), n_err),
+                );
             }
-            let ts = p.tlvs()?;
-            if ts.len() != 1 || ts[0].tag != 0x2d {
-                return Some(false);
-            }
-            let ch = ts[0].children();
-            let gid = rc::find(ch, 0x1d)?.prim_val()?;
-            let goff = rc::find(ch, 0x1e)?.prim_val()?;
-            let gpay: &[u8] = match rc::find(ch, 0x1c) {
-                Some(t) => match &t.val {
-                    TlvVal::Prim(v) => v,
-                    _ => return Some(false),
-                },
-                None => &[],
-            };
-            let extra = ch.iter().any(|t| ![0x1d, 0x1e, 0x1c].contains(&t.tag));
-            Some(gid == [id] && goff == offset && gpay == payload && !extra)
-        })()
-        .unwrap_or(false);
-        if !ok {
+            return;
+        }
+        if outcome != "done" {
             out.fail(
-                "data_block",
+                "no_progress",
+                format!("{sig}/{outcome}"),
+                format!("upload {outcome} after {polls} polls although the terminal delivered its whole script"),
+            );
+            return;
+        }
+        let mut wbuf = written.clone();
+        let mut frames = vec![];
+        while let Some(f) = rc::take_frame(&mut wbuf) {
+            frames.push(f);
+        }
+        // (1) the announcement
+        let Some(cmd) = frames.first() else {
+            out.fail("command", sig.clone(), "no complete 08 14 frame was written");
+            return;
+        };
+        match Pkt::decode(cmd) {
+            Ok(p) if p.cf == (0x08, 0x14) => {
+                if rc::bcd_val(&p.pos) != Some(plan.password as u64) || p.pos.len() != 3 {
+                    out.fail("manifest_password", sig.clone(), format!("08 14 carries password {} instead of {}", crate::conn::hex(&p.pos), plan.password));
+                }
+                let mut got: Vec<(u8, u32)> = vec![];
+                let mut malformed = p.bmps.len() != 1;
+                for t in p.tlvs().unwrap_or_default() {
+                    let ch = t.children();
+                    let id = rc::find(ch, 0x1d).and_then(|x| x.prim_val()).filter(|v| v.len() == 1).map(|v| v[0]);
+                    let size = rc::find(ch, 0x1f00)
+                        .and_then(|x| x.prim_val())
+                        .filter(|v| v.len() == 4)
+                        .map(|v| u32::from_be_bytes([v[0], v[1], v[2], v[3]]));
+                    match (t.tag, id, size, ch.len()) {
+                        (0x2d, Some(id), Some(size), 2) => got.push((id, size)),
+                        _ => malformed = true,
+                    }
+                }
+                got.sort();
+                let want: Vec<(u8, u32)> = announced.iter().map(|(k, v)| (*k, *v)).collect();
+                if malformed || got != want {
+                    out.fail(
+                        "manifest",
+                        sig.clone(),
+                        format!("announced file list {:02x?} (malformed entries: {malformed}) differs from the recognised files on disk {:02x?}", got, want),
+                    );
+                }
+            }
+            _ => out.fail("command", sig.clone(), format!("first frame is not a decodable 08 14: {}", crate::conn::hex(cmd))),
+        }
+        // (2)..(4) the script
+        let avail = plan.cut.map(|c| c.0 as u64).unwrap_or(u64::MAX);
+        let mut end_off = 3u64; // after the terminal's acknowledgement
+        let mut expect_items = 0usize;
+        let mut expect_answers: Vec<(Vec<u8>, u64)> = vec![]; // (kind marker or expected payload, end offset)
+        let mut error_expected = avail < 3;
+        let mut cut_hit = avail < 3;
+        if cut_hit {
+            out.stats.hit("fault.stream_cut");
+        }
+        for (i, r) in plan.requests.iter().enumerate() {
+            if error_expected {
+                break;
+            }
+            if end_off + replies[i].len() as u64 > avail {
+                // the connection ends inside (or before) this request: one error, nothing more is sent
+                error_expected = true;
+                cut_hit = true;
+                out.stats.hit("fault.stream_cut");
+                break;
+            }
+            end_off += replies[i].len() as u64;
+            if fs_err == Some(FsErrAt::Request(i)) {
+                // the file operation behind this answer failed: one error, nothing is sent for it
+                error_expected = true;
+                break;
+            }
+            let valid = match r {
+                Req::Data { id, .. } => announced.contains_key(id),
+                _ => false,
+            };
+            if !valid {
+                error_expected = true;
+                out.stats.hit(match r {
+                    Req::Data { .. } => "fault.unknown_file_id",
+                    Req::NoId { .. } => "fault.request_without_id",
+                    Req::NoOffset { .. } => "fault.request_without_offset",
+                    Req::NoContainer { .. } => "fault.request_without_container",
+                    Req::NoTlv => "fault.request_without_tlv",
+                });
+                break;
+            }
+            if let Req::Data { id, offset } = r {
+                let file = &truth[id];
+                let a = (*offset as usize).min(file.len());
+                let b = (*offset as usize + plan.block as usize).min(file.len());
+                if a == b {
+                    out.stats.hit("probe.offset_at_or_after_eof");
+                } else if b - a < plan.block as usize {
+                    out.stats.hit("probe.short_last_block");
+                } else {
+                    out.stats.hit("probe.full_block");
+                }
+                let mut exp = vec![*id];
+                exp.extend(offset.to_be_bytes());
+                exp.extend_from_slice(&file[a..b]);
+                expect_answers.push((exp, end_off));
+                expect_items += 1;
+            }
+        }
+        let mut final_end = None;
+        if !error_expected {
+            if end_off + replies[plan.requests.len()].len() as u64 > avail {
+                error_expected = true;
+                cut_hit = true;
+                out.stats.hit("fault.stream_cut");
+            } else {
+                end_off += replies[plan.requests.len()].len() as u64;
+                expect_items += 1;
+                final_end = Some(end_off);
+            }
+        }
+        let read_limit = if cut_hit { avail.min(ex.stream().len() as u64) } else { end_off };
+        // answers written
+        let answers = &frames[1..];
+        let want_answers = expect_answers.len() + if error_expected { 0 } else { 1 };
+        if answers.len() != want_answers || !wbuf.is_empty() {
+            out.fail(
+                if answers.len() > want_answers { "extra_write" } else { "missing_answer" },
                 sig.clone(),
                 format!(
-                    "answer {i} {} does not carry id {:02x}, offset {} and the {} file bytes at that offset (block size {})",
-                    crate::conn::hex(&a[..a.len().min(40)]),
-                    id,
-                    u32::from_be_bytes([offset[0], offset[1], offset[2], offset[3]]),
-                    payload.len(),
-                    plan.block
+                    "client wrote {} answer frame(s) (+{} stray bytes), reference model: {}{}",
+                    answers.len(),
+                    wbuf.len(),
+                    want_answers,
+                    if error_expected { " (invalid request ends the upload, nothing may be sent for it)" } else { "" }
                 ),
             );
         }
-    }
-    if !error_expected {
-        if let Some(a) = answers.get(expect_answers.len()) {
-            if a[..] != rc::ACK {
-                out.fail("final_ack", sig.clone(), format!("completion/abort answered with {}", crate::conn::hex(a)));
-            }
+        let mut answer_ends: Vec<usize> = vec![];
+        let mut off = frames[0].len();
+        for a in answers {
+            off += a.len();
+            answer_ends.push(off);
         }
-    }
-    // cursor at each write
-    {
-        let cmd_len = frames[0].len();
-        let mut woff = 0usize;
-        let mut ends = expect_answers.iter().map(|(_, e)| *e).collect::<Vec<_>>();
-        if let Some(e) = final_end {
-            ends.push(e);
-        }
-        for e in logg.entries.iter() {
-            if let Ev::Write(b) = &e.ev {
-                if woff >= cmd_len {
-                    let idx = answer_ends.iter().position(|end| woff < *end);
-                    if let Some(idx) = idx {
-                        if let Some(end) = ends.get(idx) {
-                            if e.cursor != *end {
-                                out.fail(
-                                    "answer_position",
-                                    sig.clone(),
-                                    format!("answer {idx} written with read cursor {} but request {idx} ends at {}", e.cursor, end),
-                                );
-                            }
-                        }
-                    }
-                } else if e.cursor != 0 {
-                    out.fail("write_order", sig.clone(), "announcement written after reading");
+        for (i, (exp, _)) in expect_answers.iter().enumerate() {
+            let Some(a) = answers.get(i) else { break };
+            let (id, offset, payload) = (exp[0], &exp[1..5], &exp[5..]);
+            let ok = (|| -> Option<bool> {
+                let p = Pkt::decode(a).ok()?;
+                if p.cf != (0x80, 0x00) || !p.pos.is_empty() || p.bmps.len() != 1 {
+                    return Some(false);
                 }
-                woff += b.len();
-            }
-        }
-    }
-    // items
-    let n_ok = rec.items.iter().take_while(|i| i.res.is_ok()).count();
-    let n_err = rec.items.iter().filter(|i| i.res.is_err()).count();
-    if n_ok != expect_items {
-        out.fail(
-            if n_ok < expect_items { "missing_item" } else { "extra_item" },
-            sig.clone(),
-            format!("stream yielded {n_ok} packets, reference model: {expect_items}"),
-        );
-    }
-    for (i, it) in rec.items.iter().enumerate().take(n_ok.min(expect_items)) {
-        let frame = &replies[i];
-        let dbg = it.res.as_ref().unwrap();
-        let own = seqs::own_decodes(frame);
-        let ok = seqs::split_variant(dbg).map(|(_, inner)| own.iter().any(|o| o == inner)).unwrap_or(false);
-        if !ok {
-            out.fail("item_content", sig.clone(), format!("item {i} is {dbg}, packet decodes on its own as {:?}", own));
-        }
-        if let Some(end) = answer_ends.get(i) {
-            if it.written_len != *end {
+                let ts = p.tlvs()?;
+                if ts.len() != 1 || ts[0].tag != 0x2d {
+                    return Some(false);
+                }
+                let ch = ts[0].children();
+                let gid = rc::find(ch, 0x1d)?.prim_val()?;
+                let goff = rc::find(ch, 0x1e)?.prim_val()?;
+                let gpay: &[u8] = match rc::find(ch, 0x1c) {
+                    Some(t) => match &t.val {
+                        TlvVal::Prim(v) => v,
+                        _ => return Some(false),
+                    },
+                    None => &[],
+                };
+                let extra = ch.iter().any(|t| ![0x1d, 0x1e, 0x1c].contains(&t.tag));
+                Some(gid == [id] && goff == offset && gpay == payload && !extra)
+            })()
+            .unwrap_or(false);
+            if !ok {
                 out.fail(
-                    "answer_before_yield",
+                    "data_block",
                     sig.clone(),
-                    format!("item {i} handed over with {} bytes written, its answer ends at {}", it.written_len, end),
+                    format!(
+                        "answer {i} {} does not carry id {:02x}, offset {} and the {} file bytes at that offset (block size {})",
+                        crate::conn::hex(&a[..a.len().min(40)]),
+                        id,
+                        u32::from_be_bytes([offset[0], offset[1], offset[2], offset[3]]),
+                        payload.len(),
+                        plan.block
+                    ),
                 );
             }
         }
-    }
-    if error_expected {
-        if n_err != 1 || rec.items.last().map(|i| i.res.is_ok()).unwrap_or(true) {
+        if !error_expected {
+            if let Some(a) = answers.get(expect_answers.len()) {
+                if a[..] != rc::ACK {
+                    out.fail("final_ack", sig.clone(), format!("completion/abort answered with {}", crate::conn::hex(a)));
+                }
+            }
+        }
+        // cursor at each write
+        {
+            let cmd_len = frames[0].len();
+            let mut woff = 0usize;
+            let mut ends = expect_answers.iter().map(|(_, e)| *e).collect::<Vec<_>>();
+            if let Some(e) = final_end {
+                ends.push(e);
+            }
+            for e in logg.entries.iter() {
+                if let Ev::Write(b) = &e.ev {
+                    if woff >= cmd_len {
+                        let idx = answer_ends.iter().position(|end| woff < *end);
+                        if let Some(idx) = idx {
+                            if let Some(end) = ends.get(idx) {
+                                if e.cursor != *end {
+                                    out.fail(
+                                        "answer_position",
+                                        sig.clone(),
+                                        format!("answer {idx} written with read cursor {} but request {idx} ends at {}", e.cursor, end),
+                                    );
+                                }
+                            }
+                        }
+                    } else if e.cursor != 0 {
+                        out.fail("write_order", sig.clone(), "announcement written after reading");
+                    }
+                    woff += b.len();
+                }
+            }
+        }
+        // items
+        let n_ok = rec.items.iter().take_while(|i| i.res.is_ok()).count();
+        let n_err = rec.items.iter().filter(|i| i.res.is_err()).count();
+        if n_ok != expect_items {
             out.fail(
-                "invalid_request_error",
+                if n_ok < expect_items { "missing_item" } else { "extra_item" },
                 sig.clone(),
-                format!("invalid request must end the upload with exactly one error; got {n_err} error(s)"),
+                format!("stream yielded {n_ok} packets, reference model: {expect_items}"),
             );
         }
-        if h.cursor() > read_limit {
-            out.fail("over_read", sig.clone(), "read beyond the invalid request");
+        for (i, it) in rec.items.iter().enumerate().take(n_ok.min(expect_items)) {
+            let frame = &replies[i];
+            let dbg = it.res.as_ref().unwrap();
+            let own = seqs::own_decodes(frame);
+            let ok = seqs::split_variant(dbg).map(|(_, inner)| own.iter().any(|o| o == inner)).unwrap_or(false);
+            if !ok {
+                out.fail("item_content", sig.clone(), format!("item {i} is {dbg}, packet decodes on its own as {:?}", own));
+            }
+            if let Some(end) = answer_ends.get(i) {
+                if it.written_len != *end {
+                    out.fail(
+                        "answer_before_yield",
+                        sig.clone(),
+                        format!("item {i} handed over with {} bytes written, its answer ends at {}", it.written_len, end),
+                    );
+                }
+            }
         }
-    } else {
-        if n_err != 0 {
-            let e = rec.items.iter().find_map(|i| i.res.as_ref().err()).unwrap();
-            out.fail("spurious_error", sig.clone(), format!("valid upload ended in error: {e}"));
+        if error_expected {
+            if n_err != 1 || rec.items.last().map(|i| i.res.is_ok()).unwrap_or(true) {
+                out.fail(
+                    "invalid_request_error",
+                    sig.clone(),
+                    format!("invalid request must end the upload with exactly one error; got {n_err} error(s)"),
+                );
+            }
+            if h.cursor() > read_limit {
+                out.fail("over_read", sig.clone(), "read beyond the invalid request");
+            }
+        } else {
+            if n_err != 0 {
+                let e = rec.items.iter().find_map(|i| i.res.as_ref().err()).unwrap();
+                out.fail("spurious_error", sig.clone(), format!("valid upload ended in error: {e}"));
+            }
+            if Some(h.cursor()) != final_end {
+                out.fail("cursor_end", sig.clone(), format!("upload ended at cursor {}, final packet ends at {:?}", h.cursor(), final_end));
+            }
+            let full = ex.stream();
+            let released = (h.released_total() as usize).min(full.len());
+            let _ = cut_hit;
+            let end = (final_end.unwrap_or(0) as usize).min(released);
+            if h.unread() != full[end..released] {
+                out.fail("tail_damaged", sig.clone(), "bytes queued behind the final packet are not intact");
+            }
         }
-        if Some(h.cursor()) != final_end {
-            out.fail("cursor_end", sig.clone(), format!("upload ended at cursor {}, final packet ends at {:?}", h.cursor(), final_end));
+        if !rec.ended || rec.after_end != 0 {
+            out.fail("no_end", sig.clone(), "stream did not end cleanly");
         }
-        let full = ex.stream();
-        let released = (h.released_total() as usize).min(full.len());
-        let _ = cut_hit;
-        let end = (final_end.unwrap_or(0) as usize).min(released);
-        if h.unread() != full[end..released] {
-            out.fail("tail_damaged", sig.clone(), "bytes queued behind the final packet are not intact");
+        for a in &trec.lock().unwrap().anomalies {
+            out.fail("terminal_anomaly", sig.clone(), a.clone());
+        }
+    };
+    // Acceptable models: the upload ends with one error at any one of the failing operations (all
+    // earlier ones were retried successfully), or every failing operation was retried.
+    let mut models: Vec<Option<FsErrAt>> = fails.iter().filter(|f| **f != FsErrAt::Unknown).map(|f| Some(*f)).collect();
+    models.dedup();
+    models.push(None);
+    let mut first: Option<RunOut> = None;
+    let mut accepted = false;
+    for m in models {
+        let mut o = RunOut::new();
+        judge(m, &mut o);
+        if o.violations.is_empty() {
+            out.stats.merge(&o.stats);
+            if m.is_some() {
+                out.stats.hit("probe.fs_error_ended_upload");
+            } else if !fails.is_empty() {
+                out.stats.hit("probe.fs_error_retried");
+            }
+            accepted = true;
+            break;
+        }
+        if first.is_none() {
+            first = Some(o);
         }
     }
-    if !rec.ended || rec.after_end != 0 {
-        out.fail("no_end", sig.clone(), "stream did not end cleanly");
-    }
-    for a in &trec.lock().unwrap().anomalies {
-        out.fail("terminal_anomaly", sig.clone(), a.clone());
+    if !accepted {
+        let o = first.unwrap();
+        out.stats.merge(&o.stats);
+        out.violations.extend(o.violations);
     }
     out
 }
@@ -697,7 +896,37 @@ pub fn random_plan(rng: &mut Rng, max_size: u32) -> C11Plan {
         sched: if rng.pct(50) { Sched::whole() } else { Sched::random(rng) },
         paced_cuts: vec![],
         cut: None,
+        fs_faults: vec![],
     };
+    if rng.pct(25) && !present.is_empty() {
+        // file-system faults: the nth open / read_at of a present file fails or comes back short
+        for _ in 0..1 + rng.usize_below(3) {
+            let (id, _) = *rng.pick(&present);
+            let op = if rng.pct(30) { FsOpKind::Open } else { FsOpKind::Read };
+            // at most one fault in the list-building phase (open number 0): which file is opened
+            // first there is HashMap order
+            let nth = if op == FsOpKind::Open {
+                if rng.pct(15) && !p.fs_faults.iter().any(|f| f.op == FsOpKind::Open && f.nth == 0) {
+                    0
+                } else {
+                    1 + rng.below(4) as u32
+                }
+            } else {
+                rng.below(5) as u32
+            };
+            let kind = if op == FsOpKind::Open || rng.pct(40) {
+                FsKind::Fail(rng.below(4) as u8)
+            } else {
+                FsKind::Short(match rng.below(4) {
+                    0 => 1,
+                    1 => block.saturating_sub(1).max(1),
+                    2 => (block / 2).max(1),
+                    _ => 1 + rng.below(block as u64) as u32,
+                })
+            };
+            p.fs_faults.push(FsFault { file: id, op, nth, kind });
+        }
+    }
     if rng.pct(12) {
         let len: u64 = 3 + p.requests.iter().map(|r| request_frame(r).len() as u64).sum::<u64>() + 4;
         p.cut = Some((rng.below(len + 1) as u32, if rng.pct(70) { crate::conn::CloseKind::Eof } else { crate::conn::CloseKind::Reset }));
@@ -744,6 +973,45 @@ impl Check for C11 {
                 sched: Sched::whole(),
                 paced_cuts: vec![],
                 cut: None,
+                fs_faults: vec![],
+            }
+        }));
+        // one file-system fault at every file operation of a five-request upload
+        fams.push(Family::new("fs_fault_at_every_file_operation", 3 * 7 * 8, true, |i, rng| {
+            let block = [1u32, 256, 1000][(i % 3) as usize];
+            let nth = ((i / 3) % 7) as u32;
+            let kind_ix = i / 21;
+            let size = 2 * block + 1;
+            let (pi, id) = (6u8, ID_TABLE[6].1);
+            let (op, kind) = match kind_ix {
+                0 => (FsOpKind::Open, FsKind::Fail(0)),
+                1 => (FsOpKind::Open, FsKind::Fail(1)),
+                2 => (FsOpKind::Read, FsKind::Fail(0)),
+                3 => (FsOpKind::Read, FsKind::Fail(3)),
+                4 => (FsOpKind::Read, FsKind::Short(1)),
+                5 => (FsOpKind::Read, FsKind::Short(block.saturating_sub(1).max(1))),
+                6 => (FsOpKind::Read, FsKind::Short((block / 2).max(1))),
+                _ => (FsOpKind::Read, FsKind::Fail(2)),
+            };
+            C11Plan {
+                content_seed: rng.next_u64(),
+                files: vec![(pi, size), (2, 17)],
+                extra: vec![],
+                block,
+                password: 1,
+                requests: vec![
+                    Req::Data { id, offset: 0 },
+                    Req::Data { id, offset: block },
+                    Req::Data { id, offset: 1 },
+                    Req::Data { id, offset: 2 * block },
+                    Req::Data { id, offset: 0 },
+                ],
+                end: End::Completion,
+                mode: if i % 2 == 0 { Mode::Lockstep } else { Mode::Eager },
+                sched: Sched::whole(),
+                paced_cuts: vec![],
+                cut: None,
+                fs_faults: vec![FsFault { file: id, op, nth, kind }],
             }
         }));
         let (count, max_size) = match tier {
@@ -777,6 +1045,11 @@ impl Check for C11 {
         if plan.cut.is_some() {
             let mut p = plan.clone();
             p.cut = None;
+            push(p);
+        }
+        for i in 0..plan.fs_faults.len() {
+            let mut p = plan.clone();
+            p.fs_faults.remove(i);
             push(p);
         }
         for i in 0..plan.requests.len() {
@@ -827,12 +1100,12 @@ impl Check for C11 {
     }
 
     fn rule_text(&self) -> String {
-        "one run = the real WriteFile::into_stream over a payload directory written by the simulator (PRNG subset of the 21 recognised paths incl. none, unrelated files and directories, sizes {0,1,block-1,block,block+1,2*block,PRNG <= 200 KiB}, PRNG content) with block size from {1,2,127,128,255,256,1024,32768,PRNG} against a scripted terminal (request script: any order, repeats, overlaps, offsets at/after end of file, unknown ids, requests without id / offset / container / TLV; ends in completion or abort; in 12 % of the PRNG runs the connection is lost at a PRNG byte offset: one error, nothing more is sent) x lockstep/eager/paced x I/O schedules; distinct = hash of (file count, block size, mode, per-request class); every run is non-trivial".into()
+        "one run = the real WriteFile::into_stream over a payload directory written by the simulator (PRNG subset of the 21 recognised paths incl. none, unrelated files and directories, sizes {0,1,block-1,block,block+1,2*block,PRNG <= 200 KiB}, PRNG content) with block size from {1,2,127,128,255,256,1024,32768,PRNG} against a scripted terminal (request script: any order, repeats, overlaps, offsets at/after end of file, unknown ids, requests without id / offset / container / TLV; ends in completion or abort; in 12 % of the PRNG runs the connection is lost at a PRNG byte offset: one error, nothing more is sent; in 25 % file-system faults hit the nth open / read_at of a file: error, interrupted or short read; one such fault at every file operation of a five-request upload is enumerated) x lockstep/eager/paced x I/O schedules; distinct = hash of (file count, block size, mode, per-request class); every run is non-trivial".into()
     }
     fn assumptions(&self) -> Vec<String> {
         vec![
             "path -> file id table transcribed independently in the harness (cVEND manual 6.13 table 2)".into(),
-            "files are real files on tmpfs; no disk fault is injected (WriteFile opens std::fs::File itself: no seam; the property does not range over disk faults)".into(),
+            "files are real files on tmpfs; file-system faults (failing open, failing / interrupted / short read_at) are injected through the zvt_verif hook of crate zvt; a failing operation may end the upload with one error or be retried, a short read must not shorten the answer".into(),
             "manifest order is HashMap order: compared as a set, canonicalised in trace hashes".into(),
             "an absent payload tag is equivalent to an empty payload".into(),
         ]
@@ -860,6 +1133,11 @@ impl Check for C11 {
             "fault.request_without_container",
             "fault.request_without_tlv",
             "fault.stream_cut",
+            "fault.fs_open_error",
+            "fault.fs_read_error",
+            "fault.fs_read_interrupted",
+            "fault.fs_short_read",
+            "probe.fs_error_ended_upload",
         ]
     }
 }
